@@ -102,6 +102,23 @@ CHECKS['C19'] = dict(
          'model size is trusted python (cross-checked by TLC on line and byte counts).',
     design='8 (C19), Appendix C', engine='json-lines')
 
+CHECKS['C12'] = dict(
+    text='MathAgg.tla models the accumulators exactly as coded - the Welford update (m, s, k) of variance, mean\'s '
+         '(sum, count), sum, min/max from None, the two-pass moments of formal.variance (constant FormalClears selects '
+         'the defective or repaired behaviour), key_mapper applied once - in exact rational arithmetic, next to '
+         'specification-level definitions Mean / SampleVar / PopVar / Sum / Min / Max over the item multiset. TLC checks '
+         'for every integer sequence over -3..3 up to length 6 (8): the Welford identity, emitted variance = '
+         'SampleVar(prefix) (0 below two items), stddev^2 = variance, formal.variance = PopVar(prefix), last streaming '
+         'value = reduce value, the empty-sequence cases. TLC behaviours are replayed into the real operators on the '
+         'plain and multiplexed paths, streaming and reduce, with Fraction items (results must equal the model\'s '
+         'rationals exactly) and floats; MathAggTrace.tla validates every recorded execution. The floating-point clause '
+         'is an auxiliary numeric probe (sampling, labelled as such): sequences up to 10^4 items with offsets to 1e6 '
+         'and scales 1e+-140 against the specification definitions evaluated in exact Fractions, tolerance '
+         '8*n*eps*kappa (a sum-of-squares variance fails it by 2e7x).',
+    note='TLC has no reals: the algebra is decided exactly, the round-off clause only by the numeric probe. math.sqrt is '
+         'symbolic in the model. Bounded sequences; formal.* with smaller bounds (one state per sequence).',
+    design='8 (C12), 12', engine='math-agg')
+
 MUX_NOTE = ('Bounded / sampled: TLC explores the specification side exhaustively within small constants; '
             'the real code is driven on harness-enumerated small inputs and on random cases of the '
             'property\'s operator family, every recorded execution is judged by TLC. Trusts: the taps '
@@ -169,6 +186,8 @@ ENGINES = [
          serves_properties=['C18'], kind_free_text='TLA+ transcription of pure functions, exhaustive enumeration, trace validation'),
     dict(name='json-lines', path='spec/JsonLines.tla spec/JsonLinesTrace.tla harness/checks/c19.py',
          serves_properties=['C19'], kind_free_text='TLA+ staged pipeline model + TLC + trace validation'),
+    dict(name='math-agg', path='spec/MathAgg.tla spec/MathAggTrace.tla harness/checks/c12.py',
+         serves_properties=['C12'], kind_free_text='TLA+ accumulator model in exact rationals + TLC + trace validation + numeric probe'),
     dict(name='parquet', path='spec/ParquetDump.tla spec/ParquetDumpTrace.tla harness/checks/c20.py',
          serves_properties=['C20'], kind_free_text='TLA+ implementation model (heap of python lists) + TLC + trace validation'),
     dict(name='mux-contracts', path='spec/FnLib.tla spec/ListSem.tla spec/ListSemCheck.tla spec/Contracts.tla '
